@@ -1,10 +1,24 @@
 #!/bin/bash
-# run every claimed check (tier $1, default quick) and print a one-line summary each
+# run every claimed check (tier $1, default quick) the way the acceptance probe does: evidence file removed
+# first, then one summary line each with exit code, wall time and evidence validity
 tier=${1:-quick}
 for p in $(python3 -c "import checkspec;print(' '.join(sorted(checkspec.PROPS)))"); do
+  rm -f evidence/$p.json
   s=$(date +%s)
   out=$(./check $p --tier $tier 2>&1); rc=$?
   e=$(date +%s)
-  echo "== $p rc=$rc $((e-s))s"
-  echo "$out" | grep -E "VIOLATION|KNOWN-FINDING|HARNESS|kind=" | cut -c1-400
+  ev=$(python3-vt - "$p" <<'PY' 2>&1
+import json, sys, jsonschema
+p = sys.argv[1]
+try:
+    e = json.load(open(f"/verif/evidence/{p}.json"))
+    jsonschema.validate(e, json.load(open("/root/.vp/EVIDENCE.schema.json")))
+    c = e["coverage"]
+    print(f"evidence ok evals={c['evaluations']} distinct_nontrivial={c['distinct_nontrivial']}")
+except Exception as x:
+    print("EVIDENCE-INVALID", str(x)[:200])
+PY
+)
+  echo "== $p rc=$rc $((e-s))s $ev"
+  echo "$out" | grep -E "VIOLATION|KNOWN-FINDING|HARNESS|kind=" | cut -c1-300
 done
